@@ -1277,9 +1277,10 @@ def _snake(n):
 
 
 def install_is_as(defs):
-    for en in ('Expr', 'MemberProp', 'Callee', 'Pat', 'PropName', 'PropOrSpread', 'Lit', 'Stmt', 'ModuleItem', 'BlockStmtOrExpr', 'AssignTarget', 'SimpleAssignTarget', 'OptChainBase', 'Prop', 'Decl'):
-        d = defs.get(en)
-        if d is None:
+    for en, d in list(defs.items()):
+        if '::' in en or not hasattr(d, 'variants') or en in ('Option', 'Result', 'Cow', 'ControlFlow', 'Ordering'):
+            continue
+        if all(v[2] == 'unit' for v in d.variants):
             continue
         for vn, _f, _k in d.variants:
             sn = _snake(vn)
